@@ -43,6 +43,34 @@ MANIFEST_ENTRY = {
 
 FAULT_KINDS = ["exc-before", "exc-after", "kbi", "sysexit", "other-before", "other-after"]
 
+# ---- table configurations / pre-histories (a dimension of every fault-injection case).  The commit path depends on the
+# table's properties and on what its history holds: opt-in snapshot retention prunes snapshots inside create_snapshot
+# (only when the commit pushes one out of the window), the metadata log is trimmed to write.metadata.previous-versions-max,
+# expiry / delete_snapshot leave re-pointed parents and a current snapshot that is not the newest.  Code that runs only
+# under such a configuration is reached by no fault plan on a default table.
+RET_KEY = "datashard.snapshot.retention-count"
+MAX_KEY = "write.metadata.previous-versions-max"
+_A = {"do": "append"}
+
+
+def _prop(k: str, v: str) -> Dict[str, Any]:
+    return {"do": "set_property", "key": k, "value": v}
+
+
+CONFIGS: Dict[str, Optional[List[Dict[str, Any]]]] = {
+    "default": None,                                                          # two appends, no properties
+    "ret2-full": [_A, _prop(RET_KEY, "2"), _A],                               # window full: the commit pushes a snapshot out
+    "ret1-long": [_A, _A, _A, _prop(RET_KEY, "1"), _A],                       # the history itself was pruned (3 at once); every commit prunes
+    "ret3-room": [_A, _prop(RET_KEY, "3"), _A],                               # retention on, nothing to prune yet
+    "ret-invalid": [_A, _prop(RET_KEY, "many"), _A],                          # ignored value
+    "prevmax1": [_A, _prop(MAX_KEY, "1"), _A, _A],                            # metadata log trimmed at every commit
+    "long": [_A, _A, _A, _A, _A],
+    "ret2-prevmax1-expired": [_A, _A, _prop(RET_KEY, "2"), _prop(MAX_KEY, "1"), _A, {"do": "expire", "keep": 1}, _A],
+    "deleted-current": [_A, _A, _A, {"do": "delete_snapshot", "which": "current"}],   # current snapshot is not the newest
+    "deleted-oldest-ret2": [_A, _A, _A, {"do": "delete_snapshot", "which": "oldest"}, _prop(RET_KEY, "2")],
+}
+QUICK_CONFIGS = ["ret2-full", "ret1-long", "prevmax1", "ret2-prevmax1-expired"]
+
 
 class Injected(OSError):
     pass
@@ -74,9 +102,16 @@ def all_yield(_op: str, _path: str, _phase: tuple) -> bool:
     return True
 
 
-def make_inject(k: int, fkind: str, k2: Optional[int] = None):
+def make_inject(k: int, fkind: str, k2: Optional[int] = None, sticky: bool = False):
+    """Fault at storage call k (and k2).  sticky: from call k on, EVERY call of the same operation on the same class of
+    path fails the same way (a verb the credentials do not allow, a prefix that went read-only, a dead lock service):
+    a single failing call can be masked by a retry or a fallback, a persistent one cannot."""
+    hit: List[Any] = []
+
     def inject(op: str, path: str, idx: int, phase: tuple):
-        if idx == k or (k2 is not None and idx == k2):
+        if sticky and idx == k:
+            hit.append((op, P.path_class(path)))
+        if idx == k or (k2 is not None and idx == k2) or (sticky and idx > k and hit and (op, P.path_class(path)) == hit[0]):
             if fkind == "exc-before":
                 return ("before", Injected("injected storage failure"))
             if fkind == "exc-after":
@@ -97,10 +132,27 @@ def sig(state: Dict[str, Any]) -> Tuple[int, Tuple[int, ...]]:
     return (len(state["snapshot_order"]), tuple(sorted(r["x"] for r in state["rows"])))
 
 
+_LAST: Dict[str, Any] = {"gone": []}
+
+
+def _exists_at(reader_root: Any, rel: str) -> bool:
+    try:
+        if callable(reader_root):
+            reader_root(rel)
+            return True
+        return os.path.exists(os.path.join(reader_root, rel))
+    except Exception:       # noqa: BLE001
+        return False
+
+
 def follow_up(root: str, reader_root: Any) -> Any:
     """What a NEW process sees: the failed process is gone, so the kernel has dropped any flock it leaked
     (a lock release that raised / was interrupted before its effect leaves the fd open in the old process)."""
     import datashard
+    # which of the files the transaction wrote are gone NOW -- judged before the follow-up commit (which may legitimately
+    # retire things itself, e.g. push the snapshot out of a retention window)
+    sc = P.S_current()
+    _LAST["gone"] = [f for f in _written_from_log(sc.log if sc is not None else []) if not _exists_at(reader_root, f)]
     for lk in list(S.CoopLockProvider.instances):
         try:
             lk.real.release()
@@ -135,20 +187,29 @@ class OsFsyncFault:
         os.fsync = self.real
 
 
-def run_one(ctx, backend: str, opkind: str, style: str, inject=None) -> P.CaseResult:
+def run_one(ctx, backend: str, opkind: str, style: str, inject=None, config: str = "default") -> P.CaseResult:
     op = op_for(opkind)
     op["style"] = style
     case = {"ops": [op], "clock": "tick", "backend": backend, "lock": "grant_all" if backend != "local" else "real",
             "yield_filter": all_yield}
+    if CONFIGS[config] is not None:
+        case["prehistory"] = CONFIGS[config]
     from harness.props.c01 import _fix_case
-    return P.run_case(ctx.scratch, _fix_case(case), lambda sc: (lambda en, s: en[0]), tag="c04",
-                      inject={"A0": inject} if inject else None, after=follow_up)
+    _LAST["gone"] = []
+    res = P.run_case(ctx.scratch, _fix_case(case), lambda sc: (lambda en, s: en[0]), tag="c04",
+                     inject={"A0": inject} if inject else None, after=follow_up)
+    res.gone = list(_LAST["gone"])
+    return res
 
 
 def written_files(res: P.CaseResult) -> List[str]:
+    return _written_from_log(res.log)
+
+
+def _written_from_log(log: List[dict]) -> List[str]:
     out = []
     seen_commit = False
-    for e in res.log:
+    for e in log:
         if "Transaction.commit" in (e.get("phase") or ()):
             seen_commit = True
         elif seen_commit and "Transaction.append_data" in (e.get("phase") or ()):
@@ -172,6 +233,16 @@ def exists_in(res: P.CaseResult, root_reader: Any, rel: str) -> bool:
 
 def oracle(ctx, backend: str, opkind: str, style: str, k: int, fkind: str, res: P.CaseResult, pre, post) -> Optional[str]:
     st, detail = res.outcomes["A0"]
+    # post-flip infallibility: once the pointer write has landed (whatever its caller was told), nothing this transaction wrote
+    # may be deleted by the rest of the call, whichever later storage call fails
+    flip_at = next((i for i, e in enumerate(res.log) if e["op"] in ("write_file", "write_file_cas") and P.path_class(e["path"]) == "hint"
+                    and "MetadataManager.commit" in e["phase"] and e.get("performed") is not False
+                    and (e["result"] == "ok" or (isinstance(e["result"], tuple) and e["result"][0] == "raised-after-effect"))), None)
+    gone_now = list(getattr(res, "gone", []) or [])
+    if flip_at is not None and gone_now:
+        by = next((e for e in res.log[flip_at:] if e["op"] == "delete_file" and e["path"].lstrip("/") in gone_now and e.get("performed") is not False), None)
+        return (f"the pointer write landed (call {flip_at}) and afterwards files written by the transaction, which the new version references, "
+                f"were deleted: {gone_now[:3]}" + (f" (by {by['phase'][-1]}, outcome of the call: {st} {detail})" if by else ""))
     if "error" in res.final:
         return f"table unreadable after the faulty call: {res.final['error']}"
     if res.final["missing"]:
@@ -188,7 +259,7 @@ def oracle(ctx, backend: str, opkind: str, style: str, k: int, fkind: str, res: 
     wf = written_files(res)
     fetch = _fetcher(res)
     if ambiguous:
-        gone = [f for f in wf if not exists_in(res, fetch, f)]
+        gone = list(getattr(res, "gone", None) or []) if hasattr(res, "gone") else [f for f in wf if not exists_in(res, fetch, f)]
         if gone:
             return f"ambiguous commit error but files written by the transaction were deleted: {gone[:3]}"
     if s == pre:
@@ -280,9 +351,15 @@ def project_fault(res: P.CaseResult, cas: bool) -> Tuple[List[str], List[str]]:
                     done = flipped_now
             elif (op == "DataW" or (op == "write_file" and pcs in ("manifest", "mlist"))) and (result == "ok" or after_effect):
                 evs.append("FWrite 0%nat")
-            elif op == "delete_file" and pcs in ("data", "manifest", "mlist") and "Transaction._rollback" in phase and not rolled:
-                rolled = True
-                evs.append("FRollback 0%nat")
+            elif op == "delete_file" and pcs in ("data", "manifest", "mlist") and "Transaction._rollback" in phase:
+                if not rolled:
+                    rolled = True
+                    evs.append("FRollback 0%nat")
+            elif op == "delete_file" and pcs in ("data", "manifest", "mlist", "meta") and not (
+                    pcs == "meta" and "MetadataManager._discard_unpublished_metadata" in phase):
+                # the only deletions of table files a commit performs in the model are the rollback of its OWN files and the
+                # discarding of the metadata file of a cleanly failed attempt; anything else has no event to be projected on
+                raise P.Nonconforming(f"a commit deletes a {pcs} file outside its rollback at log[{idx}]: {path} in {phase[-1] if phase else '?'}")
         # does an exception escape the commit here?
         raised_here = (fault is not None) and (fault == "before" or after_effect)
         if raised_here and not aborted:
@@ -338,51 +415,85 @@ def run(ctx) -> None:
     for backend in backends:
         for opkind in (["append", "delete_snapshot"] if quick else ["append", "expire", "delete_snapshot", "delete_current"]):
             for style in (["with"] if opkind != "append" else ["with", "explicit", "reuse"]):
-                combos.append((backend, opkind, style))
+                combos.append((backend, opkind, style, "default"))
+    # the same fault plans on configured tables / longer histories (from the start of commit() on: the configuration does not
+    # change what happens before)
+    for ci, config in enumerate(QUICK_CONFIGS if quick else [c for c in CONFIGS if c != "default"]):
+        for bi, backend in enumerate(backends):
+            if quick:
+                combos.append((backend, "append", ["with", "explicit"][(ci + bi) % 2], config))
+            else:
+                combos += [(backend, "append", "with", config), (backend, "append", "explicit", config),
+                           (backend, "expire", "with", config), (backend, "delete_snapshot", "with", config)]
     exprs, meta_runs, bad = [], [], []
     total = 0
     reuse_runs = [0]
-    for backend, opkind, style in combos:
-        clean = run_one(ctx, backend, opkind, style)
+    for backend, opkind, style, config in combos:
+        clean = run_one(ctx, backend, opkind, style, config=config)
         clean.root = ctx.scratch + "/c04"
         pre, post = sig(clean.initial), sig(clean.final)
         ncalls = len(clean.log)
-        ctx.stats.setdefault("calls_per_commit", {})[f"{backend}/{opkind}/{style}"] = ncalls
+        ctx.stats.setdefault("calls_per_commit", {})[f"{backend}/{opkind}/{style}/{config}"] = ncalls
+        if clean.outcomes["A0"][0] != "ok" or "error" in clean.final or clean.final.get("missing"):
+            ctx.violation(f"commit-nofault:{backend}:{opkind}:{style}:{config}",
+                          f"a commit WITHOUT any fault on a table with history {config} did not leave a sound table: {clean.outcomes['A0']} "
+                          f"{clean.final.get('error') or clean.final.get('missing')}",
+                          {"backend": backend, "op": opkind, "style": style, "config": config, "k": -1, "k2": None, "fault": "none"})
+            continue
         kinds = FAULT_KINDS if backend != "local" else ["exc-before", "kbi", "sysexit", "other-before"]
         if quick:
             kinds = [k for k in kinds if k != "sysexit"]
+        if quick and config != "default":
+            kinds = [k for k in kinds if k != "other-after"]
         ks = list(range(ncalls))
-        if quick and len(ks) > 30:
+        first_commit = next((i for i, e in enumerate(clean.log) if "Transaction.commit" in e["phase"] or "SnapshotManager.delete_snapshot" in e["phase"]), 0)
+        if config != "default":
+            ks = ks[first_commit:]
+        elif quick and len(ks) > 30:
             # keep every call from the start of commit() on, sample the prefix
-            first_commit = next((i for i, e in enumerate(clean.log) if "Transaction.commit" in e["phase"] or "SnapshotManager.delete_snapshot" in e["phase"]), 0)
             ks = sorted(set(ks[first_commit:] + ctx.rng.sample(ks[:first_commit], min(6, first_commit))))
-        plans = [(k, None, fk) for k in ks for fk in kinds]
-        if not quick and opkind == "append":
+        plans = [(k, None, fk, False) for k in ks for fk in kinds]
+        # persistent faults: one plan per distinct (operation, class of path) the commit issues, failing from its first use on
+        seen_cls = set()
+        for k in range(first_commit, ncalls):
+            e = clean.log[k]
+            key = (e["op"], P.path_class(e["path"]))
+            if key in seen_cls:
+                continue
+            seen_cls.add(key)
+            plans.append((k, None, "exc-before", True))
+            if not quick:
+                plans.append((k, None, "other-before", True))
+        if not quick and opkind == "append" and config == "default":
             pairs = [(k, k2) for k in ks for k2 in ks if k2 > k]
             for k, k2 in ctx.rng.sample(pairs, min(150, len(pairs))):
-                plans.append((k, k2, ctx.rng.choice(kinds)))
-        for k, k2, fk in plans:
-            res = run_one(ctx, backend, opkind, style, make_inject(k, fk, k2))
+                plans.append((k, k2, ctx.rng.choice(kinds), False))
+        for k, k2, fk, sticky in plans:
+            res = run_one(ctx, backend, opkind, style, make_inject(k, fk, k2, sticky), config=config)
             res.root = ctx.scratch + "/c04"
             total += 1
-            ctx.count(1, (backend, opkind, style, k, k2, fk))
+            ctx.count(1, (backend, opkind, style, config, k, k2, fk, sticky))
             why = oracle(ctx, backend, opkind, style, k, fk, res, pre, post)
             at = res.log[k] if k < len(res.log) else {}
             where = (at.get("phase") or ("?",))[-1]
             if why:
-                ctx.violation(f"commit-fault:{fk}:{backend}:{opkind}:{style}:{where}",
-                              f"{why} [fault {fk} at call {k} ({at.get('op')} {P.path_class(at.get('path', ''))} in {where})]",
-                              {"backend": backend, "op": opkind, "style": style, "k": k, "k2": k2, "fault": fk, "outcome": res.outcomes["A0"]})
+                ctx.violation(f"commit-fault:{fk}{'-persistent' if sticky else ''}:{backend}:{opkind}:{style}:{config}:{where}",
+                              f"{why} [fault {fk}{' (persistent: every later call of the same kind fails too)' if sticky else ''} at call {k} "
+                              f"({at.get('op')} {P.path_class(at.get('path', ''))} in {where}); table history: {config}]",
+                              {"backend": backend, "op": opkind, "style": style, "config": config, "k": k, "k2": k2, "fault": fk,
+                               "sticky": sticky, "outcome": res.outcomes["A0"]})
             if style == "reuse":
                 reuse_runs[0] += 1
                 continue        # the second transaction on the reused object is outside the one-commit model: oracle only
             try:
                 evs, _notes = project_fault(res, backend == "s3cas")
             except P.Nonconforming as e:
-                bad.append({"backend": backend, "op": opkind, "style": style, "k": k, "fault": fk, "nonconforming": str(e)})
+                bad.append({"backend": backend, "op": opkind, "style": style, "config": config, "k": k, "fault": fk, "sticky": sticky,
+                            "nonconforming": str(e)})
                 continue
             exprs.append(model_expr(res, opkind, backend, evs))
             meta_runs.append((backend, opkind, style, k, k2, fk, res, evs, post))
+    ctx.stats["table_histories"] = sorted({c for _b, _o, _s, c in combos})
     # local backend: the n-th fsync of the commit fails (files before their rename, directories after it)
     for opkind, style in ([("append", "with"), ("append", "explicit")] if quick else [("append", "with"), ("append", "explicit"), ("expire", "with"), ("delete_snapshot", "with")]):
         with OsFsyncFault(None) as cnt:
@@ -442,9 +553,14 @@ def replay(ctx, payload) -> int:
     if "k" not in c:
         print("replay: no concrete case")
         return 2
-    clean = run_one(ctx, c["backend"], c["op"], c["style"])
+    config = c.get("config", "default")
+    clean = run_one(ctx, c["backend"], c["op"], c["style"], config=config)
     clean.root = ctx.scratch + "/c04"
-    res = run_one(ctx, c["backend"], c["op"], c["style"], make_inject(c["k"], c["fault"], c.get("k2")))
+    if c.get("fault") == "none":
+        bad_clean = clean.outcomes["A0"][0] != "ok" or "error" in clean.final or clean.final.get("missing")
+        print("replay:", f"STILL FAILS: fault-free commit on history {config}: {clean.outcomes['A0']}" if bad_clean else "passes now")
+        return 1 if bad_clean else 0
+    res = run_one(ctx, c["backend"], c["op"], c["style"], make_inject(c["k"], c["fault"], c.get("k2"), bool(c.get("sticky"))), config=config)
     res.root = ctx.scratch + "/c04"
     why = oracle(ctx, c["backend"], c["op"], c["style"], c["k"], c["fault"], res, sig(clean.initial), sig(clean.final))
     print("replay:", "STILL FAILS: " + why if why else "passes now")
